@@ -758,22 +758,29 @@ impl<C: CellType> OptRebuild<'_, C> {
                                 None,
                             ];
                         } else if inc.variables().all(|x| constant.contains(&x)) {
-                            if let Some(m) = mul
-                                .wrapping_pow(c)
-                                .wrapping_mul(mul)
-                                .wrapping_add(C::NEG_ONE)
-                                .wrapping_div(mul.wrapping_add(C::NEG_ONE))
-                            {
-                                return [
-                                    Some(
-                                        Expr::val(mul.wrapping_pow(c))
-                                            .mul(Expr::var(var))
-                                            .add(Expr::val(m).mul(inc)),
-                                    ),
-                                    None,
-                                    None,
-                                ];
+                            // Geometric series `sum_{i<c} mul^i`, computed by binary
+                            // splitting, since division is not unique modulo `2^BITS`.
+                            let (mut m, mut pow) = (C::ZERO, C::ONE);
+                            let (mut part_sum, mut part_pow) = (C::ONE, mul);
+                            let mut exp = c;
+                            while exp != C::ZERO {
+                                if exp.is_odd() {
+                                    m = m.wrapping_add(pow.wrapping_mul(part_sum));
+                                    pow = pow.wrapping_mul(part_pow);
+                                }
+                                part_sum = part_sum.wrapping_add(part_pow.wrapping_mul(part_sum));
+                                part_pow = part_pow.wrapping_mul(part_pow);
+                                exp = exp.wrapping_shr(1);
                             }
+                            return [
+                                Some(
+                                    Expr::val(mul.wrapping_pow(c))
+                                        .mul(Expr::var(var))
+                                        .add(Expr::val(m).mul(inc)),
+                                ),
+                                None,
+                                None,
+                            ];
                         }
                     }
                 }
